@@ -41,8 +41,11 @@ def scenario_dir(rng, base):
     # a page whose notes carry no tag, property or link of their own: removing it issues no commit of its own
     serial[0] += 2
     write_tree(base, {c06.page_name(5): "# page 5 #hv0\n\n- note%d r1\n- note%d r1\n\n" % (serial[0] - 1, serial[0])})
+    # two pages with syntax errors, both accepted into the whitelist by the first run: a re-run must accept them again
+    write_tree(base, {"a_broken.zo": "# broken one\n\n- a note with an [[unclosed link\n\n",
+                      "zz_broken.zo": "# broken two\n\n- another ((unclosed\n\n"})
     with freeze_time(dt.datetime(2024, 6, 1, 12)):
-        Z.db_create(base)
+        Z.db_create(base, update_whitelist=True)
     # ZIDs of the crash day already exist (an earlier, complete run on that day): a counter that starts over would
     # hand them out again
     c06.apply_real(base, ["addnote", 3], serial, None)
